@@ -18,7 +18,7 @@ PROP = "C15"
 
 FILE_NAMES = ("a.log", "b.log", "c.txt", "messages", "syslog", "zz.log", "A.log", "a b.log", "é.log", "日本.log", "x.log.gz",
               "y.log.xz", "kern.log.1", "app.log.old", ".hidden.log", "m-n.log", "10.log", "9.log")
-NONLOG_NAMES = ("pic.jpg", "tool.exe", "lib.so", "page.html", "run.sh", "arch.zip", "song.mp3")
+NONLOG_NAMES = ("pic.jpg", "tool.exe", "lib.so", "page.html", "run.sh", "arch.zip", "song.mp3", "page.html.gz", "core.bin.1.xz", "web.bin.1.gz")
 DIR_NAMES = ("a", "b", "a.d", "sub dir", "ünï", "Z", "0", ".hid")
 
 
@@ -32,6 +32,7 @@ class Tree:
         self.links = {}      # path -> target (relative to the link's directory)
         self.broken = {}     # path -> target: dangling links; they name no regular file and contribute nothing to any form
         self.dirs = set()
+        self.lines = {}      # path -> [[(instant, line bytes)...] per source it contributes] (one list; a tar: one per member)
 
     def listdir(self, d):
         """names directly under directory d (files, links, dirs)"""
@@ -87,12 +88,37 @@ class Tree:
         return out
 
 
-def make_log(rng, letter, k, instants):
+def make_log(rng, letter, k, instants, lines_out=None):
     """k messages at the shared instants; unique tags"""
     out = bytearray()
     for i in range(k):
-        out += world.stamp(instants[i], 0, 1, 3) + b" " + letter + world.tag26(i) + b" " + world._body(rng, rng.randint(0, 12), 0) + b"\n"
+        ln = world.stamp(instants[i], 0, 1, 3) + b" " + letter + world.tag26(i) + b" " + world._body(rng, rng.randint(0, 12), 0) + b"\n"
+        out += ln
+        if lines_out is not None:
+            lines_out.append((instants[i], ln))
     return bytes(out)
+
+
+def model_stdout(t, explicit):
+    """what naming these paths in this order must print: every file is attempted whatever its name, an archive
+    contributes one source per member in archive order; earliest pending message first, ties to the earlier source"""
+    srcs = []
+    for p in explicit:
+        r = t.resolve(p)
+        if r is None or r[0] != "file" or r[1] not in t.lines:
+            return None
+        srcs += [list(x) for x in t.lines[r[1]]]
+    out = bytearray()
+    pos = [0] * len(srcs)
+    while True:
+        best = None
+        for k, s_ in enumerate(srcs):
+            if pos[k] < len(s_) and (best is None or s_[pos[k]][0] < srcs[best][pos[best]][0]):
+                best = k
+        if best is None:
+            return bytes(out)
+        out += srcs[best][pos[best]][1]
+        pos[best] += 1
 
 
 def gen_tree(rng):
@@ -104,7 +130,9 @@ def gen_tree(rng):
     def add_file(d, name):
         letter = bytes([65 + fid[0] % 26]) + bytes([97 + (fid[0] // 26) % 26])
         fid[0] += 1
-        content = make_log(rng, letter, rng.randint(1, 3), instants)
+        lines = []
+        content = make_log(rng, letter, rng.randint(1, 3), instants, lines)
+        t.lines[d + "/" + name] = [lines]
         if name.endswith(".gz"):
             content = world.to_gz(content, level=6, mtime=0)
         elif name.endswith(".xz"):
@@ -121,11 +149,16 @@ def gen_tree(rng):
             # an archive beneath the directory: walking reaches it like naming it; its members (whatever their names,
             # a named archive's members are all attempted) must print the same either way
             members = []
+            mlines = []
             for mn in rng.sample(("old/app.log", "deploy.sh", "report.html", "notes", "m.txt", "x.py"), rng.randint(1, 3)):
                 letter = bytes([65 + fid[0] % 26]) + bytes([97 + (fid[0] // 26) % 26])
                 fid[0] += 1
-                members.append((mn, make_log(rng, letter, rng.randint(1, 3), instants), 1600000000))
-            t.files[d + "/" + rng.choice(("bundle.tar", "a.tar"))] = world.to_tar(members, rng.choice(("ustar", "gnu", "pax")))
+                ml = []
+                members.append((mn, make_log(rng, letter, rng.randint(1, 3), instants, ml), 1600000000))
+                mlines.append(ml)
+            tarname = d + "/" + rng.choice(("bundle.tar", "a.tar"))
+            t.files[tarname] = world.to_tar(members, rng.choice(("ustar", "gnu", "pax")))
+            t.lines[tarname] = mlines
         if depth < 3:
             for dn in rng.sample(DIR_NAMES, rng.randint(0, 2)):
                 fill(d + "/" + dn, depth + 1)
@@ -229,6 +262,11 @@ def run_case(seed, i, tier):
     plan = core.random_plan(prng, max(1, len(explicit)), budget=3_000_000)
     plan.hashseed = rng.getrandbits(32)
     ref = None
+    # the absolute part: the explicit list against a model of the merge (skipped when a path occurs twice in it: what naming
+    # a file twice prints is compared across the forms only)
+    want = model_stdout(t, explicit) if len(set(explicit)) == len(explicit) else None
+    if want is not None:
+        cr.probes["explicit_form_checked_against_model"] += 1
     for (name, argv, stdin) in forms:
         scn = to_scenario(core.random.Random(rng.getrandbits(32)), t, argv, stdin)
         res = core.execute(scn, plan)
@@ -242,6 +280,8 @@ def run_case(seed, i, tier):
         cr.probes["form_" + name] += 1
         cr.nontrivial_keys.append(core.derive(0, scn.digest()))
         vs = mergecheck.evaluate(res, None, check_protocol=False)
+        if not vs and name == "explicit" and want is not None and res.stdout != want:
+            vs.append(("explicit_list_differs_from_model", mergecheck.show_diff(res.stdout, want)))
         if not vs:
             if ref is None:
                 ref = (name, res.stdout)
@@ -249,7 +289,8 @@ def run_case(seed, i, tier):
                 vs.append(("expansion_differs_%s_vs_%s" % (name, ref[0]), mergecheck.show_diff(res.stdout, ref[1])))
         for (cls, detail) in vs:
             rp = {"scenario": scn.to_json(), "plan": plan.as_replay(tr).to_json(), "class": cls,
-                  "reference": None if ref is None else {"name": ref[0], "stdout_b64": __import__("base64").b64encode(ref[1]).decode()}}
+                  "reference": None if (ref is None or cls == "explicit_list_differs_from_model") else {"name": ref[0], "stdout_b64": __import__("base64").b64encode(ref[1]).decode()},
+                  "want_b64": __import__("base64").b64encode(want).decode() if cls == "explicit_list_differs_from_model" else None}
             cr.violations.append(Violation(cls, "args=%s explicit=%s links=%s: %s" % (args, explicit, t.links, detail), rp))
         if vs:
             break
@@ -271,6 +312,8 @@ def classes_of(rp):
     plan = core.Plan.from_json(rp["plan"])
     res = core.execute(scn, plan)
     cl = set(c for (c, _) in mergecheck.evaluate(res, None, check_protocol=False))
+    if rp.get("want_b64") is not None and res.stdout != base64.b64decode(rp["want_b64"]):
+        cl.add("explicit_list_differs_from_model")
     if rp.get("reference") and res.stdout != base64.b64decode(rp["reference"]["stdout_b64"]):
         cl.add(rp["class"])
     return cl
